@@ -979,9 +979,11 @@ func (e *Engine) verifyFunc(key string) (c *Ctx, err error) {
 			c.runDefers(ex.s)
 			pos := fi.decl.Body.Rbrace
 			label := "end"
+			retOrd := 0
 			if ex.ret != nil {
 				pos = ex.ret.Pos()
-				label = fmt.Sprintf("return %d", c.retOrd[ex.ret])
+				retOrd = c.retOrd[ex.ret]
+				label = fmt.Sprintf("return %d", retOrd)
 			}
 			c.atClauses(ex.s, label, pos)
 			if c.touchedLocks {
@@ -993,6 +995,15 @@ func (e *Engine) verifyFunc(key string) (c *Ctx, err error) {
 				c.curTags = en.Tags
 				g := c.cevalBool(en.Expr, ex.s, c.entryParams(), fi.decl.Body.Lbrace+1)
 				c.oblige(ex.s, fmt.Sprintf("post%d@%s", i+1, strings.ReplaceAll(label, " ", "")), en.Text, pos, g, en.Tags)
+			}
+			// vacuity guard per exit: the path to this return, together with everything the clauses evaluated on it
+			// brought in, must be satisfiable - a contradictory assumption would make its postconditions hold trivially
+			if len(k.Ensures) > 0 {
+				if why, dead := k.DeadReturns[retOrd]; dead {
+					c.note("return " + fmt.Sprint(retOrd) + " of " + key + " is declared unreachable under the contract: " + why)
+				} else {
+					c.smoke(ex.s, strings.ReplaceAll(label, " ", ""), pos)
+				}
 			}
 			retStates = append(retStates, ex.s)
 		case xPanic:
